@@ -3718,7 +3718,20 @@ def plain_column_projection(expr, parent, dependents, additional_columns=None):
 
     if column_union == expr.frame.columns:
         return
-    result = type(expr)(expr.frame[column_union], *expr.operands[1:])
+    operands = expr.operands[1:]
+    if not isinstance(column_union, list):
+        # Selecting a single column turns the frame into a Series; frame-like
+        # operands that are combined with it row by row (cond / other of
+        # where and mask, a frame of fill values) have to follow
+        operands = [
+            (
+                op[column_union]
+                if isinstance(op, Expr) and op.ndim > 1 and column_union in op.columns
+                else op
+            )
+            for op in operands
+        ]
+    result = type(expr)(expr.frame[column_union], *operands)
     if column_union == parent.operand("columns"):
         return result
     return type(parent)(result, parent.operand("columns"))
